@@ -2,6 +2,7 @@
 encoders used to produce well-formed inputs, damage operators, and the exhaustive small-scope
 streams.  Every random choice derives from the one `random.Random` passed in."""
 import itertools
+import re
 import struct
 
 from common import hexb
@@ -249,7 +250,21 @@ def setter_calls(cfg):
 def render(cfg, r=None, style="canon"):
     if cfg["k"] == "custom" and cfg.get("unit"):
         return f"(unit {cfg['pt']})"
-    return render_(cfg, r, style)
+    if style == "default":
+        return via_default(render_(cfg, r, "canon"), None)
+    e = render_(cfg, r, style)
+    if r is not None and style != "canon" and r.random() < 0.25:
+        e = via_default(e, r)
+    return e
+
+
+VIA_DEFAULT = re.compile(r"\((nack|fir|rpsi|sdes|compound)(?=[ )])(?! \(via_default\))")
+
+
+def via_default(expr, r):
+    """construct the builders that implement `Default` through it (PROTOCOL.md: `(via_default)`);
+    r None: all of them, else each with probability 1/2"""
+    return VIA_DEFAULT.sub(lambda m: m.group(0) + " (via_default)" if (r is None or r.random() < 0.5) else m.group(0), expr)
 
 
 def render_(cfg, r=None, style="canon"):
@@ -337,8 +352,8 @@ def interleave(r, a, b, keep_first_order=True):
     return out
 
 
-def build_req(expr, bufs):
-    return "(build %s (bufs%s))" % (expr, "".join(f" ({n} {f})" for n, f in bufs))
+def build_req(expr, bufs, rt_first=False):
+    return "(build %s (bufs%s)%s)" % (expr, "".join(f" ({n} {f})" for n, f in bufs), " (rt_first)" if rt_first else "")
 
 
 # --------------------------------------------------------------------------------------------
